@@ -226,6 +226,7 @@ Expect(a, rq) == ExpectP(a, rq, FALSE)
 (*   iters : [k, calls] for k = 0 .. : a fresh iterator, k results taken   *)
 (*   gets  : [i, ok, calls] for ds[i]                                      *)
 (*   getk  : [i, key, ok, calls] for ds[key], key = keys()[i]              *)
+(*   srck  : [i, key, ok, calls] for ds[key], key = i-th key of the source *)
 (* a call is [s |-> stage, xs |-> atoms of the argument].                  *)
 
 CallsOf(calls, s) == LET ps == SelectIdx(calls, LAMBDA c : c.s = s, 1)
@@ -244,6 +245,27 @@ Matches(calls, exp) ==
         ELSE /\ IsPrefix(exp[j].must, c)
              /\ IsPrefix(c, exp[j].must \o exp[j].may)
   /\ \A j \in 1..Len(calls) : \E m \in 1..Len(exp) : exp[m].s = calls[j].s
+
+\* chains over a dict source made of stages that hand a key down unchanged
+RECURSIVE KeyChain(_)
+KeyChain(a) ==
+  CASE a.op = "dict" -> TRUE
+    [] a.op = "list" -> FALSE
+    [] a.op \in {"lmap", "copy"} -> KeyChain(a.in)
+    [] a.op = "lfilter" -> a.lazy /\ KeyChain(a.in)
+    [] OTHER -> FALSE
+\* [alive, exp]: is the example of source position p still alive above `a`,
+\* and the expected calls (bottom stage first)
+RECURSIVE KeyWalk(_, _)
+KeyWalk(a, p) ==
+  IF a.op = "dict" THEN [alive |-> TRUE, exp |-> <<>>, v |-> I(a.src[p])]
+  ELSE LET below == KeyWalk(a.in, p) IN
+       IF a.op = "copy" THEN below
+       ELSE LET call == [s |-> a.s, must |-> IF below.alive THEN <<Atoms(below.v)>> ELSE <<>>,
+                         may |-> <<>>, un |-> FALSE]
+            IN [alive |-> below.alive /\ (a.op # "lfilter" \/ Pred(a.p, below.v)),
+                exp |-> below.exp \o <<call>>, v |-> below.v]
+KeyExpect(a, p) == KeyWalk(a, p).exp
 
 V_C08(a, logs) ==
   LET n  == Len(Vals(a))
@@ -272,6 +294,12 @@ V_C08(a, logs) ==
             /\ logs.getk[j].key = Els(a)[logs.getk[j].i + 1].k
             /\ ~Matches(logs.getk[j].calls, Expect(a, IdxReq(<<logs.getk[j].i + 1>>, <<>>)))
        THEN <<"viol", "key-lookup-evaluates-other-than-its-constituents">>
+  \* ds[key] through stages that are not indexable by position but forward a key
+  \* (lazy filter): every logging stage on the way is applied exactly ONCE to the
+  \* example stored under the key, bottom-up, until a filter rejects it
+  ELSE IF KeyChain(a) /\ \E j \in 1..Len(logs.srck) :
+            ~Matches(logs.srck[j].calls, KeyExpect(a, logs.srck[j].i + 1))
+       THEN <<"viol", "key-lookup-through-lazy-stages-evaluates-other-than-once">>
   ELSE IF n = 0 THEN <<"trivial", "empty">> ELSE <<"ok", "">>
 
 -----------------------------------------------------------------------------
